@@ -35,9 +35,9 @@ type tierCfg struct {
 
 func cfg(tier string) tierCfg {
 	if tier == "thorough" {
-		return tierCfg{gen: 12000, corpus: 382 * 4, probes: 21 * 6, endless: 300, l2: 3000, tails: 60, budget: 200000, exhaustMax: 1500, sample: 400}
+		return tierCfg{gen: 12000, corpus: 382 * 4, probes: 21 * 6, endless: 300, l2: 3000, tails: 128, budget: 200000, exhaustMax: 1500, sample: 400}
 	}
-	return tierCfg{gen: 260, corpus: 120, probes: 21 * 2, endless: 30, l2: 48, tails: 15, budget: 20000, exhaustMax: 400, sample: 200}
+	return tierCfg{gen: 260, corpus: 120, probes: 21 * 2, endless: 30, l2: 48, tails: 32, budget: 20000, exhaustMax: 400, sample: 200}
 }
 
 func (d *D) Count(tier string) int {
@@ -231,6 +231,15 @@ func compare(sc *core.Scenario, ref, f *core.Result, k int) *core.Violation {
 		return &core.Violation{Oracle: "O2-eval-after-stop", Signature: "O2:yield:" + kind,
 			Expected: "nothing is evaluated after the stop flag is raised (no further Yield)",
 			Observed: obs(), Match: map[string]string{"oracle": "O2-yield", "at": kind}}
+	}
+	if f.StopMon != "" {
+		// the monitor around Evaluator.eval saw a node that was entered with the flag up and still evaluated to its end
+		o := obs()
+		parts := strings.SplitN(f.StopMon, "|", 2)
+		o["node_evaluated_after_stop"] = f.StopMon
+		return &core.Violation{Oracle: "O2-eval-after-stop", Signature: "O2:node:" + strings.TrimPrefix(parts[0], "*parser.") + ":" + kind,
+			Expected: "nothing is evaluated after the stop flag is raised: a node entered while the flag is up ends with 'stopped'",
+			Observed: o, Match: map[string]string{"oracle": "O2-node", "at": kind}}
 	}
 	// O1 stopped result
 	if f.EndClass != core.EndStopped {
